@@ -14,11 +14,14 @@
 -/
 import MantraDex.Model.System
 import MantraDex.Proofs.NumLemmas
+import MantraDex.Proofs.FarmHandlerLemmas
+import MantraDex.Properties.C09
+import MantraDex.Properties.C11
 
 set_option linter.unusedSimpArgs false
 
 namespace MantraDex.C05
-open MantraDex
+open MantraDex MantraDex.FH
 
 def sumNat (xs : List Nat) : Nat := xs.foldl (· + ·) 0
 
@@ -43,56 +46,908 @@ def Conserves (s s' : FmState) (funds : List Coin) (r : Response) : Prop :=
 /-- farms never claim more than funded (part of the invariant) -/
 def ClaimedOk (s : FmState) : Prop := ∀ f ∈ s.farms, f.claimed ≤ f.assetAmount
 
+/-! ### sums -/
+
+theorem sumNat_eq_sum (xs : List Nat) : sumNat xs = xs.sum := by
+  unfold sumNat; exact List.sum_eq_foldl.symm
+
+def posSum (ps : List Position) (d : Denom) : Nat := ((ps.filter (·.lpDenom == d)).map (·.amount)).sum
+def farmSum (fs : List Farm) (d : Denom) : Nat :=
+  ((fs.filter (·.assetDenom == d)).map fun f => f.assetAmount - f.claimed).sum
+def msgOut (d : Denom) (m : Msg) : Nat :=
+  match m with
+  | .bankSend _ cs => coinsOf cs d
+  | .bankBurn cs => coinsOf cs d
+  | _ => 0
+
+theorem liability_eq (s : FmState) (d : Denom) : liability s d = posSum s.positions d + farmSum s.farms d := by
+  unfold liability posSum farmSum; rw [sumNat_eq_sum, sumNat_eq_sum]
+
+theorem outflow_eq (msgs : List SubMsg) (d : Denom) : outflow msgs d = ((msgs.map (·.msg)).map (msgOut d)).sum := by
+  unfold outflow; rw [sumNat_eq_sum, List.map_map]; rfl
+
+theorem coinsOf_eq (cs : List Coin) (d : Denom) : coinsOf cs d = ((cs.filter (·.denom == d)).map (·.amount)).sum := by
+  unfold coinsOf; rw [sumNat_eq_sum]
+
+theorem coinsOf_nil (d : Denom) : coinsOf [] d = 0 := by rw [coinsOf_eq]; rfl
+theorem coinsOf_cons (c : Coin) (cs : List Coin) (d : Denom) :
+    coinsOf (c :: cs) d = (if c.denom == d then c.amount else 0) + coinsOf cs d := by
+  rw [coinsOf_eq, coinsOf_eq, List.filter_cons]; split <;> simp
+theorem coinsOf_append (a b : List Coin) (d : Denom) : coinsOf (a ++ b) d = coinsOf a d + coinsOf b d := by
+  rw [coinsOf_eq, coinsOf_eq, coinsOf_eq, List.filter_append, List.map_append, List.sum_append]
+theorem coinsOf_single (c : Coin) (d : Denom) : coinsOf [c] d = if c.denom == d then c.amount else 0 := by
+  rw [coinsOf_cons, coinsOf_nil]; simp
+
+theorem posSum_nil (d : Denom) : posSum [] d = 0 := rfl
+theorem posSum_cons (p : Position) (ps : List Position) (d : Denom) :
+    posSum (p :: ps) d = (if p.lpDenom == d then p.amount else 0) + posSum ps d := by
+  unfold posSum; rw [List.filter_cons]; split <;> simp
+theorem posSum_perm {a b : List Position} (h : a.Perm b) (d : Denom) : posSum a d = posSum b d := by
+  unfold posSum; exact ((h.filter _).map _).sum_nat
+
+theorem farmSum_nil (d : Denom) : farmSum [] d = 0 := rfl
+theorem farmSum_cons (f : Farm) (fs : List Farm) (d : Denom) :
+    farmSum (f :: fs) d = (if f.assetDenom == d then f.assetAmount - f.claimed else 0) + farmSum fs d := by
+  unfold farmSum; rw [List.filter_cons]; split <;> simp
+theorem farmSum_append (a b : List Farm) (d : Denom) : farmSum (a ++ b) d = farmSum a d + farmSum b d := by
+  unfold farmSum; rw [List.filter_append, List.map_append, List.sum_append]
+theorem farmSum_perm {a b : List Farm} (h : a.Perm b) (d : Denom) : farmSum a d = farmSum b d := by
+  unfold farmSum; exact ((h.filter _).map _).sum_nat
+
+theorem outflow_nil (d : Denom) : outflow [] d = 0 := by rw [outflow_eq]; rfl
+theorem outflow_append (a b : List SubMsg) (d : Denom) : outflow (a ++ b) d = outflow a d + outflow b d := by
+  simp only [outflow_eq, List.map_append, List.sum_append]
+theorem outflow_ofMsgs (ms : List Msg) (d : Denom) :
+    outflow (ms.map fun m => ({ msg := m } : SubMsg)) d = (ms.map (msgOut d)).sum := by
+  rw [outflow_eq, List.map_map, List.map_map]; rfl
+
+/-- a response without messages and an unchanged ledger -/
+theorem conserves_of_eq {s s' : FmState} {funds : List Coin} {r : Response}
+    (hm : r.msgs = []) (h : ∀ d, liability s' d ≤ liability s d + coinsOf funds d) : Conserves s s' funds r := by
+  intro d; rw [hm, outflow_nil]; exact h d
+
+theorem posSum_save_new {s : FmState} {p : Position} (h : s.getPosition p.id = none) (d : Denom) :
+    posSum (s.savePosition p).positions d = (if p.lpDenom == d then p.amount else 0) + posSum s.positions d := by
+  rw [posSum_perm (savePosition_perm_new h), posSum_cons]
+
+theorem posSum_pull {ps : List Position} {p0 : Position} (hn : (ps.map (·.id)).Nodup) (hp0 : p0 ∈ ps) (d : Denom) :
+    posSum ps d = (if p0.lpDenom == d then p0.amount else 0) + posSum (ps.filter (·.id != p0.id)) d := by
+  rw [posSum_perm (perm_cons_filter_key Position.id ps p0 hn hp0), posSum_cons]
+
+theorem posSum_save_replace {s : FmState} {p p0 : Position} (hn : (s.positions.map (·.id)).Nodup)
+    (hp0 : p0 ∈ s.positions) (hid : p.id = p0.id) (d : Denom) :
+    posSum (s.savePosition p).positions d + (if p0.lpDenom == d then p0.amount else 0) =
+      (if p.lpDenom == d then p.amount else 0) + posSum s.positions d := by
+  rw [posSum_perm (savePosition_perm_replace hn hp0 hid), posSum_cons, posSum_pull hn hp0 d]
+  omega
+
+theorem createPosition_core {s s1 s3 : FmState} {env : FmEnv} {rcv : Addr} {u : Nat} {lp : Coin} {funds : List Coin}
+    {p : Position} {r : Response}
+    (hp : s1.positions = s.positions) (hf : s1.farms = s.farms)
+    (hnone : ¬ (s1.getPosition p.id).isSome = true) (hd : p.lpDenom = lp.denom) (ha : p.amount = lp.amount)
+    (hfunds : oneCoin funds = .ok lp) (hr : r.msgs = [])
+    (h : updateWeights (s1.savePosition p) env rcv lp.denom lp.amount u true = .ok s3) :
+    Conserves s s3 funds r := by
+  obtain ⟨h1, h2⟩ := updateWeights_frame h
+  have hnone' : s1.getPosition p.id = none := by
+    cases hg : s1.getPosition p.id with
+    | none => rfl
+    | some x => rw [hg] at hnone; simp at hnone
+  apply conserves_of_eq hr
+  intro d
+  rw [liability_eq, liability_eq, h1, h2, savePosition_farms, hf, posSum_save_new hnone', hp,
+    oneCoin_ok hfunds, coinsOf_single, hd, ha]
+  omega
+
 theorem create_position_conserves {s s' : FmState} {env : FmEnv} {sender : Addr} {funds : List Coin}
     {id : Option String} {u : Nat} {recv : Option Addr} {r : Response}
     (h : createPosition s env sender funds id u recv = .ok (s', r)) : Conserves s s' funds r := by
-  sorry
+  unfold createPosition at h
+  have hp : (match id with
+      | some i => (C.EXPLICIT_POSITION_ID_PREFIX ++ i, s)
+      | none => (C.AUTO_POSITION_ID_PREFIX ++ toString (s.posCounter + 1),
+          ({ s with posCounter := s.posCounter + 1 } : FmState))).2.positions = s.positions := by
+    cases id <;> rfl
+  have hf : (match id with
+      | some i => (C.EXPLICIT_POSITION_ID_PREFIX ++ i, s)
+      | none => (C.AUTO_POSITION_ID_PREFIX ++ toString (s.posCounter + 1),
+          ({ s with posCounter := s.posCounter + 1 } : FmState))).2.farms = s.farms := by
+    cases id <;> rfl
+  cases recv with
+  | none =>
+    simp only [error_bind, ite_err_ok, bind_ok, pure_ok, Prod.mk.injEq] at h
+    obtain ⟨lp, hlp, _, _, rcv, rfl, _, _, hnone, _, s3, hw, rfl, rfl⟩ := h
+    exact createPosition_core hp hf hnone rfl rfl hlp rfl hw
+  | some rv =>
+    simp only [error_bind, ite_err_ok, bind_ok, pure_ok, Prod.mk.injEq] at h
+    obtain ⟨lp, hlp, _, _, _, _, rcv, rfl, _, _, hnone, _, s3, hw, rfl, rfl⟩ := h
+    exact createPosition_core hp hf hnone rfl rfl hlp rfl hw
 
 theorem expand_position_conserves {s s' : FmState} {env : FmEnv} {sender : Addr} {funds : List Coin}
     {id : String} {r : Response} (hu : (s.positions.map (·.id)).Nodup)
     (h : expandPosition s env sender funds id = .ok (s', r)) : Conserves s s' funds r := by
-  sorry
+  unfold expandPosition at h
+  cases hg : s.getPosition id with
+  | none => simp [hg, bind, Except.bind] at h
+  | some p =>
+    simp only [hg, error_bind, ite_err_ok, bind_ok, pure_ok, ckAdd_ok, Prod.mk.injEq] at h
+    obtain ⟨q, hq, lp, hlp, _, hden, _, _, a, ⟨_, rfl⟩, s2, hw, rfl, rfl⟩ := h
+    cases hq
+    obtain ⟨hmem, _⟩ := getPosition_some hg
+    obtain ⟨h1, h2⟩ := updateWeights_frame hw
+    have hden' : p.lpDenom = lp.denom := by simpa using hden
+    apply conserves_of_eq rfl
+    intro d
+    have := posSum_save_replace (p := { p with amount := p.amount + lp.amount }) hu hmem rfl d
+    rw [liability_eq, liability_eq, h1, h2, savePosition_farms, oneCoin_ok hlp, coinsOf_single, ← hden']
+    simp only at this
+    by_cases hd : (p.lpDenom == d) = true
+    · simp only [hd, if_true] at this ⊢; omega
+    · simp only [hd, if_false, Bool.false_eq_true] at this ⊢; omega
+
+theorem closePosition_tail {s s1 s2 s4 : FmState} {env : FmEnv} {sender : Addr} {funds : List Coin}
+    {p p' : Position} {amt : Nat} {lpd : Denom} {r : Response}
+    (hfunds : funds = []) (hr : r.msgs = [])
+    (hf : s1.farms = s.farms) (hn : (s1.positions.map (·.id)).Nodup) (hp : p ∈ s1.positions)
+    (hid : p'.id = p.id)
+    (hsum : ∀ d, posSum s1.positions d + (if p'.lpDenom == d then p'.amount else 0) =
+      posSum s.positions d + (if p.lpDenom == d then p.amount else 0))
+    (hw : updateWeights s1 env sender lpd amt p.unlocking false = .ok s2)
+    (hrec : reconcileUserState (s2.savePosition p') env sender lpd = .ok s4) :
+    Conserves s s4 funds r := by
+  obtain ⟨h1, h2⟩ := updateWeights_frame hw
+  obtain ⟨h3, h4⟩ := reconcileUserState_frame hrec
+  apply conserves_of_eq hr
+  intro d
+  have hn2 : (s2.positions.map (·.id)).Nodup := by rw [h1]; exact hn
+  have hp2 : p ∈ s2.positions := by rw [h1]; exact hp
+  have := posSum_save_replace hn2 hp2 hid d
+  have := hsum d
+  rw [liability_eq, liability_eq, h3, h4, savePosition_farms, h2, hf, hfunds, coinsOf_nil]
+  rw [h1] at *
+  omega
 
 /-- closing (fully or partially) moves no tokens and keeps the total recorded amount -/
 theorem close_position_conserves {s s' : FmState} {env : FmEnv} {sender : Addr} {funds : List Coin}
     {id : String} {lp : Option Coin} {r : Response} (hu : (s.positions.map (·.id)).Nodup)
     (hfresh : s.getPosition (C.AUTO_POSITION_ID_PREFIX ++ toString (s.posCounter + 1)) = none)
     (h : closePosition s env sender funds id lp = .ok (s', r)) : Conserves s s' funds r := by
-  sorry
+  unfold closePosition at h
+  simp only [error_bind, ite_err_ok, bind_ok, pure_ok] at h
+  obtain ⟨_, hnp, pending, _, _, h⟩ := h
+  have hfunds := nonpayable_ok hnp
+  cases hg : s.getPosition id with
+  | none => simp [hg, bind, Except.bind] at h
+  | some p =>
+    simp only [hg, error_bind, ite_err_ok, bind_ok, pure_ok, fit_ok, Prod.mk.injEq] at h
+    obtain ⟨q, hq, _, _, addNs, _, expNs, _, _, h⟩ := h
+    cases hq
+    obtain ⟨hmem, _⟩ := getPosition_some hg
+    have full : ∀ e, (do
+          let __x ← (pure (s, ({ p with open_ := false, expiringAt := some e } : Position), p.amount) :
+            R (FmState × Position × Nat))
+          let s2 ← updateWeights __x.fst env sender p.lpDenom __x.2.snd p.unlocking false
+          let s4 ← reconcileUserState (s2.savePosition __x.2.fst) env sender p.lpDenom
+          pure (s4, ({ attrs := [("action", "close_position"), ("close_in_full", toString !__x.2.fst.open_)] } : Response)))
+          = .ok (s', r) → Conserves s s' funds r := by
+      intro e h
+      simp only [bind_ok, pure_ok, Prod.mk.injEq] at h
+      obtain ⟨_, rfl, s2, hw, s4, hrec, rfl, rfl⟩ := h
+      simp only at hw hrec
+      exact closePosition_tail (s1 := s) (p := p)
+        (p' := { p with open_ := false, expiringAt := some e }) hfunds rfl rfl hu hmem rfl
+        (fun d => rfl) hw hrec
+    cases lp with
+    | none => exact full _ h
+    | some c =>
+      simp only [error_bind, ite_err_ok] at h
+      obtain ⟨hden, h⟩ := h
+      have hden' : c.denom = p.lpDenom := by simpa using hden
+      split at h
+      · exact full _ h
+      · split at h
+        next hlt =>
+          simp only [error_bind, ite_err_ok, bind_ok, pure_ok, Prod.mk.injEq] at h
+          obtain ⟨_, _, rfl, s2, hw, s4, hrec, rfl, rfl⟩ := h
+          have hfresh' : ({ s with posCounter := s.posCounter + 1 } : FmState).getPosition
+              (C.AUTO_POSITION_ID_PREFIX ++ toString (s.posCounter + 1)) = none := hfresh
+          have hperm := savePosition_perm_new (s := { s with posCounter := s.posCounter + 1 })
+            (p := { id := C.AUTO_POSITION_ID_PREFIX ++ toString (s.posCounter + 1), lpDenom := c.denom,
+                    amount := c.amount, unlocking := p.unlocking, open_ := false,
+                    expiringAt := some (expNs / NANOS), receiver := p.receiver }) hfresh'
+          simp only at hw hrec
+          refine closePosition_tail (p := p) (p' := { p with amount := p.amount - c.amount })
+            hfunds rfl ?_ ?_ ?_ rfl ?_ hw hrec
+          · exact savePosition_farms _ _
+          · rw [(hperm.map _).nodup_iff]
+            simp only [List.map_cons, List.nodup_cons]
+            exact ⟨getPosition_none_notin hfresh, hu⟩
+          · exact hperm.mem_iff.2 (List.mem_cons_of_mem _ hmem)
+          · intro d
+            rw [posSum_perm hperm, posSum_cons]
+            simp only [hden']
+            split <;> omega
+        next => cases h
+
+theorem msgOut_owner_sum (owners : List Addr) (lp d : Denom) (per : Nat) :
+    ((owners.map fun o => Msg.bankSend o [⟨lp, per⟩]).map (msgOut d)).sum =
+      owners.length * (if lp == d then per else 0) := by
+  induction owners with
+  | nil => simp
+  | cons o os ih =>
+    simp only [List.map_cons, List.sum_cons, List.length_cons, ih, msgOut, coinsOf_single]
+    rw [Nat.add_mul, Nat.one_mul, Nat.add_comm]
+
+theorem withdraw_key {s : FmState} {id : String} {p : Position}
+    (x : FmState × Nat × List Msg)
+    (hu : (s.positions.map (·.id)).Nodup) (hg : s.getPosition id = some p)
+    (hp : x.1.positions = s.positions) (hf : x.1.farms = s.farms)
+    (hout : ∀ d, (x.2.2.map (msgOut d)).sum + (if p.lpDenom == d then x.2.1 else 0) ≤
+      (if p.lpDenom == d then p.amount else 0))
+    (s3 : FmState) (h3 : s3.positions = (x.1.removePosition id).positions)
+    (h4 : s3.farms = (x.1.removePosition id).farms) :
+      Conserves s s3 [] (Response.ofMsgs
+                      (x.2.snd ++
+                        if x.2.fst ≠ 0 then [Msg.bankSend p.receiver [{ denom := p.lpDenom, amount := x.2.fst }]]
+                        else [])
+                      [("action", "withdraw_position")]) := by
+  obtain ⟨hmem, hid⟩ := getPosition_some hg
+  intro d
+  have hpull := posSum_pull hu hmem d
+  have ho := hout d
+  rw [liability_eq, liability_eq, h3, h4]
+  unfold FmState.removePosition Response.ofMsgs
+  simp only
+  rw [hp, hf, outflow_ofMsgs, List.map_append, List.sum_append, coinsOf_nil, ← hid]
+  have hpay : ((if x.2.fst ≠ 0 then [Msg.bankSend p.receiver [{ denom := p.lpDenom, amount := x.2.fst }]]
+      else []).map (msgOut d)).sum = (if p.lpDenom == d then x.2.1 else 0) := by
+    split
+    · simp [msgOut, coinsOf_single]
+    · have : x.2.1 = 0 := by omega
+      simp [this]
+  rw [hpay]
+  omega
 
 /-- a withdrawal (normal or emergency) sends out at most the recorded amount it deletes -/
 theorem withdraw_position_conserves {s s' : FmState} {env : FmEnv} {sender : Addr} {funds : List Coin}
     {id : String} {em : Option Bool} {r : Response} (hu : (s.positions.map (·.id)).Nodup)
     (h : withdrawPosition s env sender funds id em = .ok (s', r)) : Conserves s s' funds r := by
-  sorry
+  unfold withdrawPosition at h
+  simp only [error_bind, ite_err_ok, bind_ok, pure_ok] at h
+  obtain ⟨_, hnp, h⟩ := h
+  have hfunds := nonpayable_ok hnp
+  subst hfunds
+  cases hg : s.getPosition id with
+  | none => simp [hg, bind, Except.bind] at h
+  | some p =>
+    simp only [hg, error_bind, ite_err_ok, bind_ok, pure_ok, fit_ok, Prod.mk.injEq] at h
+    obtain ⟨q, hq, _, h⟩ := h
+    cases hq
+    split at h
+    · simp only [bind_ok] at h
+      obtain ⟨rate, _, cur, _, active, _, sp, hsp, h⟩ := h
+      obtain ⟨_, _, hop, hcases⟩ := C09.penaltySplit_ok hsp
+      obtain ⟨hacc, _, _⟩ := C09.split_accounted hsp
+      have hout : ∀ d, (((if sp.nFarmOwners = 0 then []
+                    else
+                      List.map (fun o => Msg.bankSend o [{ denom := p.lpDenom, amount := sp.perFarmOwner }])
+                        (uniqueOwners active)) ++
+                    if sp.feeCollector > 0 then
+                      [Msg.bankSend s.config.feeCollector [{ denom := p.lpDenom, amount := sp.feeCollector }]]
+                    else []).map (msgOut d)).sum + (if p.lpDenom == d then p.amount - sp.total else 0) ≤
+          (if p.lpDenom == d then p.amount else 0) := by
+        intro d
+        rw [List.map_append, List.sum_append]
+        have h1 : ((if sp.nFarmOwners = 0 then []
+                    else
+                      List.map (fun o => Msg.bankSend o [{ denom := p.lpDenom, amount := sp.perFarmOwner }])
+                        (uniqueOwners active)).map (msgOut d)).sum =
+            (if p.lpDenom == d then sp.nFarmOwners * sp.perFarmOwner else 0) := by
+          split
+          next h0 => simp [h0]
+          next h0 =>
+            have hn : sp.nFarmOwners = (uniqueOwners active).length := by
+              rcases hcases with ⟨_, _, hn, _⟩ | ⟨_, _, hn, _⟩ | ⟨_, _, _, hn, _⟩
+              · exact absurd hn h0
+              · exact hn
+              · exact absurd hn h0
+            rw [msgOut_owner_sum, hn]
+            split <;> simp
+        have h2 : ((if sp.feeCollector > 0 then
+                      [Msg.bankSend s.config.feeCollector [{ denom := p.lpDenom, amount := sp.feeCollector }]]
+                    else []).map (msgOut d)).sum = (if p.lpDenom == d then sp.feeCollector else 0) := by
+          split
+          · simp [msgOut, coinsOf_single]
+          · have : sp.feeCollector = 0 := by omega
+            simp [this]
+        rw [h1, h2]
+        generalize sp.nFarmOwners * sp.perFarmOwner = Q at *
+        split <;> omega
+      by_cases hopen : p.open_ = true
+      · simp only [hopen, if_true, bind_ok, pure_ok, Prod.mk.injEq] at h
+        obtain ⟨s1, hw, x, rfl, s3, hrec, rfl, rfl⟩ := h
+        obtain ⟨hp1, hf1⟩ := updateWeights_frame hw
+        obtain ⟨h3, h4⟩ := reconcileUserState_frame hrec
+        exact withdraw_key (_, _, _) hu hg hp1 hf1 hout _ h3 h4
+      · simp only [hopen, if_false, Bool.false_eq_true, bind_ok, pure_ok, Prod.mk.injEq] at h
+        obtain ⟨s1, rfl, x, rfl, s3, rfl, rfl, rfl⟩ := h
+        exact withdraw_key (_, _, _) hu hg rfl rfl hout _ rfl rfl
+    · simp only [error_bind, ite_err_ok] at h
+      obtain ⟨_, _, h⟩ := h
+      have hout : ∀ d, ((([] : List Msg).map (msgOut d)).sum + (if p.lpDenom == d then p.amount else 0)) ≤
+          (if p.lpDenom == d then p.amount else 0) := by intro d; simp
+      by_cases hopen : p.open_ = true
+      · simp only [hopen, if_true, bind_ok, pure_ok, Prod.mk.injEq] at h
+        obtain ⟨x, rfl, s3, hrec, rfl, rfl⟩ := h
+        obtain ⟨h3, h4⟩ := reconcileUserState_frame hrec
+        exact withdraw_key (_, _, _) hu hg rfl rfl hout _ h3 h4
+      · simp only [hopen, if_false, Bool.false_eq_true, bind_ok, pure_ok, Prod.mk.injEq] at h
+        obtain ⟨x, rfl, s3, rfl, rfl, rfl⟩ := h
+        exact withdraw_key (_, _, _) hu hg rfl rfl hout _ rfl rfl
 
-/-- a claim sends exactly what it adds to the farms' `claimed_amount` -/
-theorem claim_conserves {s s' : FmState} {env : FmEnv} {sender : Addr} {funds : List Coin}
-    {u : Option Nat} {r : Response} (hc : ClaimedOk s) (hu : (s.farms.map (·.id)).Nodup)
-    (h : fmClaim s env sender funds u = .ok (s', r)) : Conserves s s' funds r ∧ ClaimedOk s' := by
-  sorry
+/-! ### farms -/
+
+theorem farmSum_pull {fs : List Farm} {f0 : Farm} (hn : (fs.map (·.id)).Nodup) (hf0 : f0 ∈ fs) (d : Denom) :
+    farmSum fs d = (if f0.assetDenom == d then f0.assetAmount - f0.claimed else 0) +
+      farmSum (fs.filter (·.id != f0.id)) d := by
+  rw [farmSum_perm (perm_cons_filter_key Farm.id fs f0 hn hf0), farmSum_cons]
+
+theorem farmSum_save_replace {s : FmState} {f f0 : Farm} (hn : (s.farms.map (·.id)).Nodup)
+    (hf0 : f0 ∈ s.farms) (hid : f.id = f0.id) (d : Denom) :
+    farmSum (s.saveFarm f).farms d + (if f0.assetDenom == d then f0.assetAmount - f0.claimed else 0) =
+      (if f.assetDenom == d then f.assetAmount - f.claimed else 0) + farmSum s.farms d := by
+  rw [farmSum_perm (saveFarm_perm_replace hn hf0 hid), farmSum_cons, farmSum_pull hn hf0 d]
+  omega
+
+theorem farmSum_save_new {s : FmState} {f : Farm} (h : s.farms.any (·.id == f.id) = false) (d : Denom) :
+    farmSum (s.saveFarm f).farms d =
+      (if f.assetDenom == d then f.assetAmount - f.claimed else 0) + farmSum s.farms d := by
+  rw [farmSum_perm (saveFarm_perm_new h), farmSum_cons]
+
+theorem mem_saveFarm_replace {s : FmState} {f f0 g : Farm} (hn : (s.farms.map (·.id)).Nodup)
+    (hf0 : f0 ∈ s.farms) (hid : f.id = f0.id) (hg : g ∈ (s.saveFarm f).farms) : g = f ∨ g ∈ s.farms := by
+  have := (saveFarm_perm_replace hn hf0 hid).mem_iff.1 hg
+  rcases List.mem_cons.1 this with h | h
+  · exact Or.inl h
+  · exact Or.inr (List.mem_filter.1 h).1
+
+theorem expand_farm_conserves {s s' : FmState} {env : FmEnv} {sender : Addr} {funds : List Coin}
+    {p : FarmParams} {r : Response} (hc : ClaimedOk s) (hu : (s.farms.map (·.id)).Nodup)
+    (h : expandFarm s env sender funds p = .ok (s', r)) : Conserves s s' funds r ∧ ClaimedOk s' := by
+  unfold expandFarm at h
+  cases hid : p.farmId with
+  | none => simp [hid, bind, Except.bind] at h
+  | some fid =>
+    simp only [hid, error_bind, ite_err_ok, bind_ok, pure_ok, fit_ok, ckAdd_ok, Prod.mk.injEq] at h
+    obtain ⟨fid', hfid', f, hf, _, cur, hcur, hlt, ex, _, _, _, reward, hone, hrw, hden, hrate, hmod, total,
+      ⟨_, rfl⟩, extra, ⟨_, rfl⟩, newEnd, ⟨_, rfl⟩, rfl, rfl⟩ := h
+    cases hfid'
+    obtain ⟨hmem, _⟩ := getFarm_ok hf
+    have hden' : f.assetDenom = p.asset.denom := by simpa using hden
+    have hrw' : reward = p.asset := by simpa using hrw
+    constructor
+    · apply conserves_of_eq rfl
+      intro d
+      have := farmSum_save_replace (f := { f with
+          assetAmount := f.assetAmount + reward.amount,
+          endEpoch := f.endEpoch + p.asset.amount / f.emissionRate }) hu hmem rfl d
+      simp only at this
+      rw [liability_eq, liability_eq, saveFarm_positions, oneCoin_ok hone, coinsOf_single, hrw', ← hden']
+      rw [hrw'] at this
+      by_cases hd : (f.assetDenom == d) = true
+      · simp only [hd, if_true] at this ⊢; omega
+      · simp only [hd, if_false, Bool.false_eq_true] at this ⊢; omega
+    · intro g hg
+      rcases mem_saveFarm_replace (f0 := f) hu hmem (by rfl) hg with rfl | hg'
+      · have := hc f hmem
+        simp only; omega
+      · exact hc g hg'
+
+theorem refunds_sum (fs : List Farm) (d : Denom) :
+    ((((fs.filter (fun f => f.assetAmount - f.claimed > 0)).map
+        (fun f => Msg.bankSend f.owner [⟨f.assetDenom, f.assetAmount - f.claimed⟩]))).map (msgOut d)).sum =
+      farmSum fs d := by
+  induction fs with
+  | nil => rfl
+  | cons f fs ih =>
+    rw [List.filter_cons, farmSum_cons]
+    by_cases hr : f.assetAmount - f.claimed > 0
+    · simp only [hr, decide_true, if_true, List.map_cons, List.sum_cons, ih, msgOut, coinsOf_single]
+    · have h0 : f.assetAmount - f.claimed = 0 := by omega
+      have hd : decide (f.assetAmount - f.claimed > 0) = false := by simp [hr]
+      rw [if_neg (by rw [hd]; simp), ih, h0]
+      split <;> simp
+
+theorem closeFarms_conserve {s : FmState} {fs : List Farm} (hs : fs.Sublist s.farms)
+    (hu : (s.farms.map (·.id)).Nodup) (d : Denom) :
+    farmSum (closeFarms s fs).1.farms d + outflow (closeFarms s fs).2 d = farmSum s.farms d := by
+  obtain ⟨hm, hf, _, _, _⟩ := closeFarms_spec s fs
+  rw [outflow_eq, hm, refunds_sum, hf,
+    farmSum_perm (sublist_perm_append_filter Farm.id hs hu) d, farmSum_append]
+  omega
+
+theorem closeFarms_mem {s : FmState} {fs : List Farm} {g : Farm} (hg : g ∈ (closeFarms s fs).1.farms) :
+    g ∈ s.farms := by
+  obtain ⟨_, hf, _, _, _⟩ := closeFarms_spec s fs
+  rw [hf] at hg
+  exact (List.mem_filter.1 hg).1
+
+theorem close_farm_conserves {s s' : FmState} {sender : Addr} {funds : List Coin} {id : String}
+    {r : Response} (hc : ClaimedOk s) (hu : (s.farms.map (·.id)).Nodup)
+    (h : closeFarm s sender funds id = .ok (s', r)) : Conserves s s' funds r ∧ ClaimedOk s' := by
+  unfold closeFarm at h
+  simp only [error_bind, ite_err_ok, bind_ok, pure_ok, Prod.mk.injEq] at h
+  obtain ⟨_, hnp, f, hf, _, rfl, rfl⟩ := h
+  obtain ⟨hmem, _⟩ := getFarm_ok hf
+  have hsub : [f].Sublist s.farms := List.singleton_sublist.2 hmem
+  obtain ⟨_, _, hpos, _, _⟩ := closeFarms_spec s [f]
+  constructor
+  · intro d
+    have := closeFarms_conserve hsub hu d
+    rw [liability_eq, liability_eq, hpos, nonpayable_ok hnp, coinsOf_nil]
+    simp only
+    omega
+  · intro g hg
+    exact hc g (closeFarms_mem hg)
+
+theorem fee_funds_bound {cfg : FmConfig} {sender : Addr} {funds : List Coin} {asset : Coin}
+    {feeMsgs : List Msg}
+    (hfm : (if cfg.createFarmFee.amount ≠ 0 then processFarmCreationFee cfg sender funds asset
+            else pure []) = .ok feeMsgs)
+    (hassert : assertFarmAsset funds cfg.createFarmFee asset = .ok ()) (d : Denom) :
+    (if asset.denom == d then asset.amount else 0) + (feeMsgs.map (msgOut d)).sum ≤ coinsOf funds d := by
+  obtain ⟨A1, A2, A3⟩ := C11.farm_asset_exact hassert
+  by_cases hfee0 : cfg.createFarmFee.amount = 0
+  · rw [if_neg (by simpa using hfee0)] at hfm
+    simp only [pure_ok] at hfm
+    subst hfm
+    by_cases hden : cfg.createFarmFee.denom = asset.denom
+    · rw [A3 hden, coinsOf_single, hfee0]; simp
+    · rw [A1 ⟨hden, hfee0⟩, coinsOf_single]; simp
+  · rw [if_pos hfee0] at hfm
+    obtain ⟨paid, hfind, hle, rfl⟩ := C11.farm_fee_messages hfee0 hfm
+    by_cases hden : cfg.createFarmFee.denom = asset.denom
+    · have hb : (cfg.createFarmFee.denom == asset.denom) = true := by simp [hden]
+      rw [A3 hden, coinsOf_single, if_pos (Or.inr hb)]
+      simp only [List.nil_append, List.map_cons, List.map_nil, List.sum_cons,
+        List.sum_nil, msgOut, coinsOf_single, hden]
+      split <;> omega
+    · obtain ⟨hlen, c, hc, hcd, hca⟩ := A2 ⟨hden, hfee0⟩
+      have hb : (cfg.createFarmFee.denom == asset.denom) = false := by simp [hden]
+      cases hf : funds.find? (fun x => x.denom == cfg.createFarmFee.denom) with
+      | none => rw [hf] at hfind; simp at hfind
+      | some c' =>
+        rw [hf] at hfind
+        simp only [Option.map_some, Option.some.injEq] at hfind
+        have hc'm := List.mem_of_find?_eq_some hf
+        have hc'd : c'.denom = cfg.createFarmFee.denom := by simpa using List.find?_some hf
+        have hne : c ≠ c' := by
+          intro he; apply hden; rw [← hc'd, ← he, hcd]
+        have hmsg : ((((if paid = cfg.createFarmFee.amount ∨ (cfg.createFarmFee.denom == asset.denom) = true then []
+              else [Msg.bankSend sender [⟨cfg.createFarmFee.denom, paid - cfg.createFarmFee.amount⟩]]) ++
+             [Msg.bankSend cfg.feeCollector [cfg.createFarmFee]]).map (msgOut d)).sum) ≤
+            (if cfg.createFarmFee.denom == d then paid else 0) := by
+          rw [List.map_append, List.sum_append]
+          simp only [hb, Bool.false_eq_true, or_false, List.map_cons, List.map_nil, List.sum_cons,
+            List.sum_nil, msgOut, coinsOf_single]
+          split
+          · simp; split <;> omega
+          · simp only [List.map_cons, List.map_nil, List.sum_cons, List.sum_nil, msgOut, coinsOf_single]
+            split <;> omega
+        have hfunds : coinsOf funds d = (if asset.denom == d then asset.amount else 0) +
+            (if cfg.createFarmFee.denom == d then paid else 0) := by
+          match funds, hlen, hc, hc'm with
+          | [x, y], _, hc, hc'm =>
+            simp only [List.mem_cons, List.not_mem_nil, or_false] at hc hc'm
+            rw [coinsOf_cons, coinsOf_single]
+            rcases hc with rfl | rfl <;> rcases hc'm with rfl | rfl
+            · exact absurd rfl hne
+            · rw [hcd, hca, hc'd, hfind]
+            · rw [hcd, hca, hc'd, hfind, Nat.add_comm]
+            · exact absurd rfl hne
+        rw [hfunds]
+        omega
 
 theorem create_farm_conserves {s s' : FmState} {env : FmEnv} {sender : Addr} {funds : List Coin}
     {p : FarmParams} {r : Response} (hc : ClaimedOk s) (hu : (s.farms.map (·.id)).Nodup)
     (hfunds : (funds.map (·.denom)).Nodup)
     (h : createFarm s env sender funds p = .ok (s', r)) : Conserves s s' funds r ∧ ClaimedOk s' := by
-  sorry
+  have _ := hfunds
+  obtain ⟨cur, flags, feeMsgs, start, end_, rate, hcur, hflags, _, _, hfm, hassert, _, _, hany,
+    rfl, rfl⟩ := createFarm_inv h
+  have hsub : (cfExpired s p flags).Sublist s.farms := by
+    unfold cfExpired cfFarms FmState.farmsByLp
+    exact ((zip_filter_sublist _ _ _).trans (List.take_sublist _ _)).trans List.filter_sublist
+  obtain ⟨_, _, hpos, _, _⟩ := closeFarms_spec s (cfExpired s p flags)
+  constructor
+  · intro d
+    have h1 := closeFarms_conserve hsub hu d
+    have h2 := fee_funds_bound hfm hassert d
+    rw [liability_eq, liability_eq, saveFarm_positions, cfIdState_positions, hpos,
+      farmSum_save_new hany, cfIdState_farms]
+    simp only
+    rw [outflow_append, outflow_ofMsgs]
+    simp only [Nat.sub_zero]
+    omega
+  · intro g hg
+    have := (saveFarm_perm_new hany).mem_iff.1 hg
+    rcases List.mem_cons.1 this with rfl | hg'
+    · exact Nat.zero_le _
+    · rw [cfIdState_farms] at hg'
+      exact hc g (closeFarms_mem hg')
 
-theorem expand_farm_conserves {s s' : FmState} {env : FmEnv} {sender : Addr} {funds : List Coin}
-    {p : FarmParams} {r : Response} (hc : ClaimedOk s) (hu : (s.farms.map (·.id)).Nodup)
-    (h : expandFarm s env sender funds p = .ok (s', r)) : Conserves s s' funds r ∧ ClaimedOk s' := by
-  sorry
-
-theorem close_farm_conserves {s s' : FmState} {sender : Addr} {funds : List Coin} {id : String}
-    {r : Response} (hc : ClaimedOk s) (hu : (s.farms.map (·.id)).Nodup)
-    (h : closeFarm s sender funds id = .ok (s', r)) : Conserves s s' funds r ∧ ClaimedOk s' := by
-  sorry
+theorem fmUpdateConfig_frame {s s' : FmState} {env : FmEnv} {sender : Addr} {u : FmConfigUpdate}
+    {r : Response} (h : fmUpdateConfig s env sender u = .ok (s', r)) :
+    s'.positions = s.positions ∧ s'.farms = s.farms ∧ r.msgs = [] := by
+  unfold fmUpdateConfig at h
+  simp only [bind_ok, pure_ok] at h
+  obtain ⟨_, _, fc, _, em, _, pm, _, h⟩ := h
+  iterate 10 (all_goals (try (split at h <;> try simp only [pure_bind, error_bind, reduceCtorEq] at h)))
+  all_goals simp only [pure_ok, Prod.mk.injEq] at h
+  all_goals obtain ⟨rfl, rfl⟩ := h
+  all_goals exact ⟨rfl, rfl, rfl⟩
 
 /-- configuration and ownership messages move nothing -/
 theorem config_conserves {s s' : FmState} {env : FmEnv} {sender : Addr} {funds : List Coin}
     {m : FmMsg} {r : Response} (hm : (∃ u, m = .updateConfig u) ∨ (∃ a, m = .updateOwnership a))
     (h : fmExecute s env sender funds m = .ok (s', r)) :
     s'.positions = s.positions ∧ s'.farms = s.farms ∧ r.msgs = [] ∧ funds = [] := by
-  sorry
+  rcases hm with ⟨u, rfl⟩ | ⟨a, rfl⟩
+  · unfold fmExecute at h
+    simp only [bind_ok] at h
+    obtain ⟨_, hnp, h⟩ := h
+    obtain ⟨h1, h2, h3⟩ := fmUpdateConfig_frame h
+    exact ⟨h1, h2, h3, nonpayable_ok hnp⟩
+  · unfold fmExecute at h
+    simp only [bind_ok, pure_ok, Prod.mk.injEq] at h
+    obtain ⟨_, hnp, o, _, rfl, rfl⟩ := h
+    exact ⟨rfl, rfl, rfl, nonpayable_ok hnp⟩
+
+/-! ### claim -/
+
+theorem insertCoin_coinsOf (c : Coin) (d : Denom) : ∀ (acc acc' : List Coin), insertCoin c acc = .ok acc' →
+    coinsOf acc' d = (if c.denom == d then c.amount else 0) + coinsOf acc d := by
+  intro acc
+  induction acc with
+  | nil =>
+    intro acc' h
+    unfold insertCoin at h
+    simp only [pure_ok] at h; subst h
+    rw [coinsOf_single, coinsOf_nil]; rfl
+  | cons x xs ih =>
+    intro acc' h
+    unfold insertCoin at h
+    split at h
+    next heq =>
+      simp only [bind_ok, ckAdd_ok, pure_ok] at h
+      obtain ⟨_, ⟨_, rfl⟩, rfl⟩ := h
+      have hd : c.denom = x.denom := by simpa using heq
+      rw [coinsOf_cons, coinsOf_cons, hd]
+      simp only
+      split <;> omega
+    next =>
+      split at h
+      · simp only [pure_ok] at h; subst h
+        rw [coinsOf_cons]
+      · simp only [bind_ok, pure_ok] at h
+        obtain ⟨r, hr, rfl⟩ := h
+        rw [coinsOf_cons, ih r hr, coinsOf_cons]
+        omega
+
+theorem aggregate_fold_coinsOf (d : Denom) : ∀ (cs init r : List Coin),
+    cs.foldlM (fun acc c => insertCoin c acc) init = .ok r → coinsOf r d = coinsOf init d + coinsOf cs d := by
+  intro cs
+  induction cs with
+  | nil => intro init r h; simp only [List.foldlM_nil, pure_ok] at h; subst h; rw [coinsOf_nil]; rfl
+  | cons c cs ih =>
+    intro init r h
+    rw [List.foldlM_cons] at h
+    simp only [bind_ok] at h
+    obtain ⟨a, ha, h⟩ := h
+    rw [ih a r h, insertCoin_coinsOf c d init a ha, coinsOf_cons]
+    omega
+
+theorem aggregateCoins_coinsOf {cs r : List Coin} (h : aggregateCoins cs = .ok r) (d : Denom) :
+    coinsOf r d = coinsOf cs d := by
+  unfold aggregateCoins at h
+  rw [aggregate_fold_coinsOf d cs [] r h, coinsOf_nil]; omega
+
+theorem ckAdd_fold_sum : ∀ (terms : List (Nat × Nat)) (a0 sum : Nat),
+    terms.foldlM (fun a t => ckAdd U128_MAX a t.2) a0 = .ok sum → sum = a0 + (terms.map (·.2)).sum := by
+  intro terms
+  induction terms with
+  | nil => intro a0 sum h; simp only [List.foldlM_nil, pure_ok] at h; subst h; simp
+  | cons t ts ih =>
+    intro a0 sum h
+    rw [List.foldlM_cons] at h
+    simp only [bind_ok, ckAdd_ok] at h
+    obtain ⟨a, ⟨_, rfl⟩, h⟩ := h
+    rw [ih _ _ h]; simp; omega
+
+theorem coinsOf_terms (dn d : Denom) (terms : List (Nat × Nat)) :
+    coinsOf ((terms.filter (·.2 > 0)).map fun t => (⟨dn, t.2⟩ : Coin)) d =
+      if dn == d then (terms.map (·.2)).sum else 0 := by
+  induction terms with
+  | nil => rw [List.filter_nil, List.map_nil, coinsOf_nil]; simp
+  | cons t ts ih =>
+    rw [List.filter_cons]
+    by_cases ht : t.2 > 0
+    · rw [if_pos (by simpa using ht), List.map_cons, coinsOf_cons, ih]
+      simp only [List.map_cons, List.sum_cons]
+      split <;> rfl
+    · have h0 : t.2 = 0 := by omega
+      rw [if_neg (by simpa using ht), ih]
+      simp only [List.map_cons, List.sum_cons, h0, Nat.zero_add]
+
+/-- (identifier, reward denom) of every farm -/
+def KD (fs : List Farm) : List (String × Denom) := fs.map fun f => (f.id, f.assetDenom)
+
+def modSum (kd : List (String × Denom)) (mods : List (String × Nat)) (d : Denom) : Nat :=
+  ((mods.filter fun m => kd.contains (m.1, d)).map (·.2)).sum
+
+theorem modSum_nil (kd : List (String × Denom)) (d : Denom) : modSum kd [] d = 0 := rfl
+theorem modSum_cons (kd : List (String × Denom)) (m : String × Nat) (ms : List (String × Nat)) (d : Denom) :
+    modSum kd (m :: ms) d = (if kd.contains (m.1, d) then m.2 else 0) + modSum kd ms d := by
+  unfold modSum; rw [List.filter_cons]; split <;> simp
+theorem modSum_append (kd : List (String × Denom)) (a b : List (String × Nat)) (d : Denom) :
+    modSum kd (a ++ b) d = modSum kd a d + modSum kd b d := by
+  unfold modSum; rw [List.filter_append, List.map_append, List.sum_append]
+
+theorem KD_ids (fs : List Farm) : (KD fs).map (·.1) = fs.map (·.id) := by
+  unfold KD; rw [List.map_map]; rfl
+
+theorem KD_contains {fs : List Farm} (hn : (fs.map (·.id)).Nodup) {f : Farm} (hf : f ∈ fs) (d : Denom) :
+    (KD fs).contains (f.id, d) = (f.assetDenom == d) := by
+  rw [Bool.eq_iff_iff]
+  simp only [List.contains_iff_mem, beq_iff_eq]
+  constructor
+  · intro hm
+    unfold KD at hm
+    obtain ⟨g, hg, hgd⟩ := List.mem_map.1 hm
+    simp only [Prod.mk.injEq] at hgd
+    have := nodup_key_inj Farm.id fs hn g hg f hf hgd.1
+    rw [← this]; exact hgd.2
+  · intro hd
+    unfold KD
+    exact List.mem_map.2 ⟨f, hf, by rw [hd]⟩
+
+abbrev CrAcc := List Coin × List (String × Nat) × List (String × Nat × Nat)
+
+theorem crTail_spec {fs : List Farm} (hn : (fs.map (·.id)).Nodup) {f : Farm} (hf : f ∈ fs)
+    {h1 h2 : List (Nat × Nat)} {sf u : Nat} {acc acc' : CrAcc}
+    (h : (do
+      let uw ← computeAddressWeights h1 sf u
+      let cw ← computeContractWeights h2 sf u
+      let terms ← farmRewardTerms f uw cw sf u
+      let coins := (terms.filter (fun (t : Nat × Nat) => t.2 > 0)).map fun (t : Nat × Nat) => (⟨f.assetDenom, t.2⟩ : Coin)
+      let sum ← terms.foldlM (fun a (t : Nat × Nat) => ckAdd U128_MAX a t.2) 0
+      let modified := if terms.isEmpty then acc.2.1 else acc.2.1 ++ [(f.id, sum)]
+      (pure (acc.1 ++ coins, modified, acc.2.2 ++ terms.map fun (t : Nat × Nat) => (f.id, t.1, t.2)) : R CrAcc)) = .ok acc')
+    (d : Denom) :
+    coinsOf acc'.1 d + modSum (KD fs) acc.2.1 d = coinsOf acc.1 d + modSum (KD fs) acc'.2.1 d := by
+  simp only [bind_ok, pure_ok] at h
+  obtain ⟨uw, _, cw, _, terms, _, sum, hsum, rfl⟩ := h
+  have hs := ckAdd_fold_sum terms 0 sum hsum
+  simp only
+  rw [coinsOf_append, coinsOf_terms]
+  cases terms with
+  | nil => simp
+  | cons t ts =>
+    simp only [List.isEmpty_cons, Bool.false_eq_true, if_false]
+    rw [modSum_append, modSum_cons, modSum_nil, KD_contains hn hf d, hs]
+    simp only [Nat.zero_add, Nat.add_zero]
+    split <;> omega
+
+theorem crStep_spec {s : FmState} {env : FmEnv} {lp : Denom} {recv : Addr} {u : Nat} {last : Option Nat}
+    (hn : (s.farms.map (·.id)).Nodup) {f : Farm} (hf : f ∈ s.farms) {acc acc' : CrAcc}
+    (h : crStep s env lp recv u last acc f = .ok acc') (d : Denom) :
+    coinsOf acc'.1 d + modSum (KD s.farms) acc.2.1 d = coinsOf acc.1 d + modSum (KD s.farms) acc'.2.1 d := by
+  unfold crStep at h
+  split at h
+  · simp only [pure_ok] at h; subst h; rfl
+  · cases last with
+    | some l =>
+      simp only [pure_bind] at h
+      exact crTail_spec hn hf h d
+    | none =>
+      simp only at h
+      cases he : histEarliest (s.hist recv f.lpDenom) with
+      | none => rw [he] at h; simp only [error_bind] at h; cases h
+      | some e =>
+        rw [he] at h
+        simp only [pure_bind] at h
+        exact crTail_spec hn hf h d
+
+theorem crFold_spec {s : FmState} {env : FmEnv} {lp : Denom} {recv : Addr} {u : Nat} {last : Option Nat}
+    (hn : (s.farms.map (·.id)).Nodup) (d : Denom) : ∀ (fs : List Farm), (∀ f ∈ fs, f ∈ s.farms) →
+    ∀ (acc acc' : CrAcc), fs.foldlM (crStep s env lp recv u last) acc = .ok acc' →
+    coinsOf acc'.1 d + modSum (KD s.farms) acc.2.1 d = coinsOf acc.1 d + modSum (KD s.farms) acc'.2.1 d := by
+  intro fs
+  induction fs with
+  | nil => intro _ acc acc' h; simp only [List.foldlM_nil, pure_ok] at h; subst h; rfl
+  | cons f fs ih =>
+    intro hsub acc acc' h
+    rw [List.foldlM_cons] at h
+    simp only [bind_ok] at h
+    obtain ⟨a, ha, h⟩ := h
+    have h1 := crStep_spec hn (hsub f (List.mem_cons_self)) ha d
+    have h2 := ih (fun g hg => hsub g (List.mem_cons_of_mem _ hg)) a acc' h
+    omega
+
+theorem calculateRewards_spec {s : FmState} {env : FmEnv} {lp : Denom} {recv : Addr} {u : Nat}
+    {rc : RewardsCalc} (hn : (s.farms.map (·.id)).Nodup)
+    (h : calculateRewards s env lp recv u = .ok rc) (d : Denom) :
+    coinsOf rc.rewards d = modSum (KD s.farms) rc.modified d := by
+  have tail : ∀ (early : Bool) (last : Option Nat), (if early = true then (pure ⟨[], [], []⟩ : R RewardsCalc) else do
+      let r ← (s.farmsByLp lp s.config.maxConcurrentFarms).foldlM (crStep s env lp recv u last) ([], [], [])
+      let agg ← aggregateCoins r.1
+      pure ⟨agg, r.2.1, r.2.2⟩) = .ok rc → coinsOf rc.rewards d = modSum (KD s.farms) rc.modified d := by
+    intro early last h
+    split at h
+    · simp only [pure_ok] at h; subst h; rw [coinsOf_nil]; rfl
+    · simp only [bind_ok, pure_ok] at h
+      obtain ⟨r, hr, agg, hagg, rfl⟩ := h
+      have := crFold_spec hn d _ (fun f hf => by
+        unfold FmState.farmsByLp at hf
+        exact (List.mem_filter.1 (List.mem_of_mem_take hf)).1) _ _ hr
+      simp only
+      rw [aggregateCoins_coinsOf hagg d]
+      rw [coinsOf_nil, modSum_nil] at this
+      omega
+  rw [calculateRewards_eq] at h
+  simp only at h
+  cases hl : s.lastClaimed recv with
+  | none =>
+    rw [hl] at h
+    simp only [pure_bind] at h
+    exact tail _ _ h
+  | some l =>
+    rw [hl] at h
+    simp only at h
+    split at h
+    · simp only [error_bind] at h; cases h
+    · simp only [pure_bind] at h
+      exact tail _ _ h
+
+theorem nodup_of_KD {fs : List Farm} {kd : List (String × Denom)} (hkd : KD fs = kd)
+    (hnk : (kd.map (·.1)).Nodup) : (fs.map (·.id)).Nodup := by
+  rw [← KD_ids, hkd]; exact hnk
+
+theorem claimModStep_spec {kd : List (String × Denom)} (hnk : (kd.map (·.1)).Nodup) {s1 s2 : FmState}
+    {m : String × Nat} (hkd : KD s1.farms = kd) (hc : ClaimedOk s1) (h : claimModStep s1 m = .ok s2) :
+    KD s2.farms = kd ∧ ClaimedOk s2 ∧ s2.positions = s1.positions ∧
+    ∀ d, farmSum s2.farms d + (if kd.contains (m.1, d) then m.2 else 0) = farmSum s1.farms d := by
+  have hn := nodup_of_KD hkd hnk
+  unfold claimModStep at h
+  simp only [error_bind, ite_err_ok, bind_ok, pure_ok, ckAdd_ok] at h
+  obtain ⟨f, hf, c, ⟨_, rfl⟩, hle, rfl⟩ := h
+  obtain ⟨hmem, hid⟩ := getFarm_ok hf
+  refine ⟨?_, ?_, saveFarm_positions _ _, ?_⟩
+  · rw [← hkd]
+    unfold KD
+    refine saveFarm_replace_map (fun f => (f.id, f.assetDenom)) (f0 := f) hmem (by rfl) ?_
+    intro q hq hqid
+    have := nodup_key_inj Farm.id s1.farms hn q hq f hmem hqid
+    rw [this]
+  · intro g hg
+    rcases mem_saveFarm_replace (f0 := f) hn hmem (by rfl) hg with rfl | hg'
+    · simp only; omega
+    · exact hc g hg'
+  · intro d
+    have := farmSum_save_replace (f := { f with claimed := f.claimed + m.2 }) hn hmem rfl d
+    simp only at this
+    rw [← hid, ← hkd, KD_contains hn hmem d]
+    by_cases hd : (f.assetDenom == d) = true
+    · simp only [hd, if_true] at this ⊢; omega
+    · simp only [hd, if_false, Bool.false_eq_true] at this ⊢; omega
+
+theorem claimModFold_spec {kd : List (String × Denom)} (hnk : (kd.map (·.1)).Nodup) :
+    ∀ (mods : List (String × Nat)) (s1 s2 : FmState), KD s1.farms = kd → ClaimedOk s1 →
+    mods.foldlM claimModStep s1 = .ok s2 →
+    KD s2.farms = kd ∧ ClaimedOk s2 ∧ s2.positions = s1.positions ∧
+    ∀ d, farmSum s2.farms d + modSum kd mods d = farmSum s1.farms d := by
+  intro mods
+  induction mods with
+  | nil =>
+    intro s1 s2 hkd hc h
+    simp only [List.foldlM_nil, pure_ok] at h; subst h
+    exact ⟨hkd, hc, rfl, fun d => by rw [modSum_nil]; rfl⟩
+  | cons m ms ih =>
+    intro s1 s2 hkd hc h
+    rw [List.foldlM_cons] at h
+    simp only [bind_ok] at h
+    obtain ⟨a, ha, h⟩ := h
+    obtain ⟨a1, a2, a3, a4⟩ := claimModStep_spec hnk hkd hc ha
+    obtain ⟨b1, b2, b3, b4⟩ := ih a s2 a1 a2 h
+    refine ⟨b1, b2, by rw [b3, a3], fun d => ?_⟩
+    have := a4 d; have := b4 d
+    rw [modSum_cons]; omega
+
+theorem claimStep_spec {kd : List (String × Denom)} (hnk : (kd.map (·.1)).Nodup) {env : FmEnv}
+    {sender : Addr} {u : Nat} {st st' : FmState × List Coin} {lp : Denom}
+    (hkd : KD st.1.farms = kd) (hc : ClaimedOk st.1) (h : claimStep env sender u st lp = .ok st') :
+    KD st'.1.farms = kd ∧ ClaimedOk st'.1 ∧ st'.1.positions = st.1.positions ∧
+    ∀ d, farmSum st'.1.farms d + coinsOf st'.2 d = farmSum st.1.farms d + coinsOf st.2 d := by
+  unfold claimStep at h
+  simp only [bind_ok, pure_ok] at h
+  obtain ⟨rc, hrc, s1, hfold, s2, hsync, rfl⟩ := h
+  obtain ⟨b1, b2, b3, b4⟩ := claimModFold_spec hnk _ _ _ hkd hc hfold
+  obtain ⟨hp, hf⟩ := syncHistory_frame hsync
+  have hspec := calculateRewards_spec (nodup_of_KD hkd hnk) hrc
+  refine ⟨by simp only; rw [hf]; exact b1, ?_, by simp only; rw [hp, b3], fun d => ?_⟩
+  · intro g hg; simp only at hg; rw [hf] at hg; exact b2 g hg
+  · simp only
+    rw [hf, coinsOf_append, hspec d, hkd]
+    have := b4 d
+    omega
+
+theorem claimFold_spec {kd : List (String × Denom)} (hnk : (kd.map (·.1)).Nodup) {env : FmEnv}
+    {sender : Addr} {u : Nat} : ∀ (lps : List Denom) (st st' : FmState × List Coin),
+    KD st.1.farms = kd → ClaimedOk st.1 → lps.foldlM (claimStep env sender u) st = .ok st' →
+    KD st'.1.farms = kd ∧ ClaimedOk st'.1 ∧ st'.1.positions = st.1.positions ∧
+    ∀ d, farmSum st'.1.farms d + coinsOf st'.2 d = farmSum st.1.farms d + coinsOf st.2 d := by
+  intro lps
+  induction lps with
+  | nil =>
+    intro st st' hkd hc h
+    simp only [List.foldlM_nil, pure_ok] at h; subst h
+    exact ⟨hkd, hc, rfl, fun d => rfl⟩
+  | cons lp lps ih =>
+    intro st st' hkd hc h
+    rw [List.foldlM_cons] at h
+    simp only [bind_ok] at h
+    obtain ⟨a, ha, h⟩ := h
+    obtain ⟨a1, a2, a3, a4⟩ := claimStep_spec hnk hkd hc ha
+    obtain ⟨b1, b2, b3, b4⟩ := ih a st' a1 a2 h
+    refine ⟨b1, b2, by rw [b3, a3], fun d => ?_⟩
+    have := a4 d; have := b4 d
+    omega
+
+/-- a claim sends exactly what it adds to the farms' `claimed_amount` -/
+theorem claim_conserves {s s' : FmState} {env : FmEnv} {sender : Addr} {funds : List Coin}
+    {u : Option Nat} {r : Response} (hc : ClaimedOk s) (hu : (s.farms.map (·.id)).Nodup)
+    (h : fmClaim s env sender funds u = .ok (s', r)) : Conserves s s' funds r ∧ ClaimedOk s' := by
+  rw [fmClaim_eq] at h
+  simp only [error_bind, ite_err_ok, bind_ok, pure_ok] at h
+  obtain ⟨_, hnp, _, cur, _, untilE, _, ⟨s1, total⟩, hfold, h⟩ := h
+  have hnk : ((KD s.farms).map (·.1)).Nodup := by rw [KD_ids]; exact hu
+  obtain ⟨b1, b2, b3, b4⟩ := claimFold_spec hnk _ _ _ rfl hc hfold
+  simp only at b1 b2 b3 b4 h
+  refine ⟨?_, ?_⟩
+  rotate_left
+  · split at h
+    · simp only [bind_ok, pure_ok, Prod.mk.injEq] at h
+      obtain ⟨msgs, _, rfl, _⟩ := h
+      exact fun g hg => b2 g hg
+    · simp only [bind_ok, pure_ok, Prod.mk.injEq] at h
+      obtain ⟨agg, _, msgs, _, rfl, _⟩ := h
+      exact fun g hg => b2 g hg
+  intro d0
+  have fin : ∀ msgs : List Msg, (msgs.map (msgOut d0)).sum = coinsOf total d0 →
+      liability { s1 with lastClaimed := fun a => if a = sender then some untilE else s1.lastClaimed a } d0 +
+        outflow (Response.ofMsgs msgs [("action", "claim")]).msgs d0 ≤ liability s d0 + coinsOf funds d0 := by
+    intro msgs hout
+    have hb := b4 d0
+    rw [coinsOf_nil] at hb
+    rw [liability_eq, liability_eq, nonpayable_ok hnp, coinsOf_nil]
+    simp only
+    rw [b3]
+    unfold Response.ofMsgs
+    simp only
+    rw [outflow_ofMsgs, hout]
+    omega
+  split at h
+  next hemp =>
+    simp only [bind_ok, pure_ok, Prod.mk.injEq] at h
+    obtain ⟨msgs, rfl, rfl, rfl⟩ := h
+    apply fin
+    have : total = [] := by simpa using hemp
+    rw [this, coinsOf_nil]; rfl
+  next =>
+    simp only [bind_ok, pure_ok, Prod.mk.injEq] at h
+    obtain ⟨agg, hagg, msgs, rfl, rfl, rfl⟩ := h
+    apply fin
+    simp only [List.map_cons, List.map_nil, List.sum_cons, List.sum_nil, msgOut, Nat.add_zero]
+    exact aggregateCoins_coinsOf hagg d0
 
 end MantraDex.C05
